@@ -150,9 +150,11 @@ closeLoop:
 }
 
 func (s *atpServerSession) runATPReadLoop() {
-	// The message is generic, so we must find the type and decode the full message next.
-	var runtimeMessage DecodedRuntimeMessage
 	for {
+		// The message is generic, so we must find the type and decode the full message next.
+		// A fresh decode target per message: fields missing from a message must not keep the
+		// values of the previous one.
+		var runtimeMessage DecodedRuntimeMessage
 		// First, decode the message
 		// Note: This blocks. To abort early, close stdin.
 		if err := s.cborStdin.Decode(&runtimeMessage); err != nil {
